@@ -618,6 +618,8 @@ func writeEvidence(p *Prop, pc *ParentCtx, agg *Aggregate, unlisted int, wall fl
 func ShardMain(p *Prop, tier string, seed uint64, shard int, out string) int {
 	c := NewCtx(p, tier, seed, shard)
 
+	go livelockWatch(c, out)
+
 	var stErr error
 	if os.Getenv("VMON_COLD_ONLY") == "" {
 		stErr = oracle.SelfTest() // (the parent has run it too; cold-start-only children skip it to stay short)
